@@ -3,17 +3,22 @@
 Model: SluApi.ObsGssvx clauses: the returned berr equals the true componentwise backward error of the
 returned X for the EQUILIBRATED system in the REQUESTED transpose sense up to 20 (n+1) eps
 (berrdev), and ferr times the customary slack 20 dominates the actual relative error against the
-solution the right-hand side was built from (ferrok); SluLacon for the estimator used by ?gsrfs.
+solution the right-hand side was built from (ferrok); SluRefine.tla: ?gsrfs as a state machine (residual with
+op(A), at most ITMAX corrections solved with op(A), the estimator's kase = 1 product solved with the
+transposed operator and kase = 2 with op(A), the kase sequence a path of SluLacon, every column
+restarting all counters) -- TLC checks termination and the bounds on the model, and every real
+?gsrfs call recorded through --wrap of sp_?gemv / ?gstrs / ?lacon must be a path of it (RfsOK).
 Binding: expert-driver histories over all trans / storage / equilibration combinations, several
 right-hand sides, thresholds 0.1..1, four precisions; oracle = long-double residuals.
 """
 import sys, os, random
 sys.path.insert(0, os.path.join(os.path.dirname(os.path.abspath(__file__)), "..", "lib"))
-import common, build, apicheck
+import common, build, apicheck, tlc, lacon
+import glob, json
 
 
 def main(tier):
-    ck = common.Check("C13", tier, "exploration")
+    ck = common.Check("C13", tier, "model_checking")
     rng = random.Random(ck.seed * 1000003 + 13)
     build.ensure("verif")
     quick = tier == "quick"
@@ -24,6 +29,7 @@ def main(tier):
                        "the generated matrices have cond << 1/sqrt(eps) as well)",
                        "the two inequalities are evaluated by the harness oracle (long double), TLC asserts them on the logged ratios"]
     seen = {}
+    selftest_ok = [True]
 
     def judge(h, recs):
         for r in recs:
@@ -34,7 +40,68 @@ def main(tier):
                            threads=(1, 2, 4), nmax=24 if quick else 50, validate_pipe=False, extra_judge=judge,
                            hist_filter=lambda h: any(c["call"] == "gssvx" for c in h))
     ck.notes["(trans, storage, equed, fact) combinations with a refined solve"] = len(seen)
-    return ck.finish()
+    # (2) the refinement loop as a protocol: model, then every real ?gsrfs call against it
+    wd = os.path.join(ck.dir, "rfs")
+    os.makedirs(wd, exist_ok=True)
+    tlc.stage(wd)
+    for nr, op in ((0, 0), (1, 0), (2, 1), (3, 2)):
+        name = "MCRfs_%d_%d" % (nr, op)
+        with open(os.path.join(wd, name + ".tla"), "w") as f:
+            f.write("---- MODULE %s ----\nEXTENDS SluRefine\n====\n" % name)
+        cfg = os.path.join(wd, name + ".cfg")
+        with open(cfg, "w") as f:
+            f.write("CONSTANTS NGt1 = TRUE ITMAX = 5 NRhs = %d Op = %d\nSPECIFICATION RSpec\nINVARIANTS RBounded RTypeOK\nPROPERTY RTerminates\nCHECK_DEADLOCK FALSE\n" % (nr, op))
+        r = tlc.run(wd, name, cfg, timeout=600)
+        ck.model(r["distinct"], r["generated"])
+        ck.case("rfsmodel:%d:%d" % (nr, op))
+        if not r["ok"]:
+            ck.violation("rfsmodel:%d:%d" % (nr, op), "SluRefine (NRhs=%d, Op=%d) violates %s" % (nr, op, r["violated"] or r["errors"][:2]))
+    recs = []
+    for f in glob.glob(os.path.join(ck.dir, "api", "h*.ndjson")):
+        if f.endswith(".calls.ndjson") or ".ev." in f:
+            continue
+        recs += lacon.rfs_records(f)
+    ck.notes["gsrfs_protocol_records"] = len(recs)
+    if recs:
+        bad, states, errors = tlc.validate_records(wd, "rfs", "SluRefineTrace", recs, constants="CONSTANTS NGt1 = TRUE ITMAX = 5 NRhs = 1 Op = 0")
+        ck.model(states, states)
+        for e in errors:
+            ck.violation("rfs:tlc", "TLC error on the refinement records: %s" % e)
+        for i, r in enumerate(recs):
+            ck.case("gsrfs:%d:%s" % (i, json.dumps(r)[:100]), sample=r if i < 2 else None)
+            if i in bad:
+                ck.violation("gsrfs:protocol", "a real ?gsrfs call is not a path of SluRefine (operator of a residual / correction / estimator solve, "
+                             "more than ITMAX corrections, or a broken estimator sequence): %s" % json.dumps(r)[:700], {"record": r})
+            else:
+                ck.traces()
+        # binding self-test: corrupted copies of real records must be rejected (a specification that accepts everything binds nothing)
+        import copy
+        cor = []
+        base = [r for r in recs if any(e[0] == 2 for e in r["ev"])][:3]
+        for k, r0 in enumerate(base):
+            r = copy.deepcopy(r0)
+            if k == 0:
+                for e in r["ev"]:
+                    if e[0] == 2:
+                        e[1] = 1 if e[1] == 0 else 0          # a solve with the other operator
+                        break
+            elif k == 1:
+                r["ev"] = r["ev"][:-1]                            # estimator sequence cut short
+            else:
+                r["ev"] = [[1, r["ev"][0][1], 0], [2, r["op"], 0]] * 7 + r["ev"]    # seven corrections
+            cor.append(r)
+        if cor:
+            cb, _, _ = tlc.validate_records(wd, "rfsself", "SluRefineTrace", cor, constants="CONSTANTS NGt1 = TRUE ITMAX = 5 NRhs = 1 Op = 0")
+            ck.notes["binding_selftest_corrupted_records_rejected"] = "%d of %d" % (len(cb), len(cor))
+            if len(cb) != len(cor):
+                selftest_ok[0] = False
+    else:
+        ck.violation("gsrfs:none", "no ?gsrfs protocol record was captured")
+    rc = ck.finish()
+    if not selftest_ok[0]:
+        print("SELFTEST-FAIL: corrupted ?gsrfs records were accepted: %s" % ck.notes.get("binding_selftest_corrupted_records_rejected"))
+        return 3
+    return rc
 
 
 if __name__ == "__main__":
